@@ -4,7 +4,7 @@
    early, late, duplicated or carry any ID).  [good c] = the skeleton facts of the repaired code ([fixed]); the
    generated skeleton (Gen/ReqResp.v, from the Go source) must compute to [fixed]. *)
 From Coq Require Import List NArith Bool.
-From LE Require Import P2P.ReqResp P2P.ReqRespProofs Gen.ReqResp.
+From LE Require Import P2P.ReqResp P2P.ReqRespProofs P2P.ReqRespCount Gen.ReqResp.
 Import ListNotations.
 Local Open Scope N_scope.
 
@@ -64,6 +64,13 @@ Proof. exact inv_nodup. Qed.
 Theorem C17_bounded_attempts : forall c s, reachable c s -> forall id q,
   get (reqs s) id = Some q -> attempt q <= max_retries c.
 Proof. exact inv_att. Qed.
+
+(* ... as a count: any set of distinct attempt IDs belonging to one call has at most max_retries + 1 elements, in every
+   reachable state of every configuration (attempt numbers are unique within a call) *)
+Theorem C17_attempts_per_call_bounded : forall c s, reachable c s -> forall cl l, NoDup l ->
+  (forall id, In id l -> exists q, get (reqs s) id = Some q /\ call q = cl) ->
+  (length l <= N.to_nat (max_retries c) + 1)%nat.
+Proof. exact attempts_per_call_bounded. Qed.
 
 Theorem C17_bounded_own_steps : forall c es s s' id q,
   run c s es = Some s' -> get (reqs s) id = Some q -> (count_own es id <= 4)%nat.
